@@ -110,6 +110,34 @@ pub fn vx_abs_pick_nodes(all_sorted_nodes: &mut Vec<(Distance, NodeHandle, bool)
                          dist_to_beat: DistanceToBeat, target_id: InfoHash) -> (r: (Option<[(NodeHandle, bool); ITERATIVE_PICK_NUM]>, DistanceToBeat))
 { unimplemented!() }
 
+//@begin const src/action/lookup.rs - INITIAL_PICK_NUM
+pub const INITIAL_PICK_NUM: usize = 4;
+//@end
+pub mod bucket {
+//@begin const src/bucket.rs - MAX_BUCKET_SIZE
+    pub const MAX_BUCKET_SIZE: usize = 8;
+//@end
+}
+// ASSUMED (lookup.rs:436-457, 521-542: zip/iter_mut adapters, binary_search_by): the two helpers that build a new search's node list.
+// They touch nothing but their arguments; which nodes they pick is C02's matter (not applicable).
+#[verifier::external_body]
+pub fn insert_sorted_node(nodes: &mut Vec<(Distance, NodeHandle, bool)>, target: InfoHash, node: NodeHandle, pinged: bool) { unimplemented!() }
+#[verifier::external_body]
+pub fn pick_initial_nodes<'a, I>(sorted_nodes: I) -> [(NodeHandle, bool); INITIAL_PICK_NUM]
+    where I: Iterator<Item = &'a mut (Distance, NodeHandle, bool)>
+{ unimplemented!() }
+// TRUSTED: InfoHash ^ InfoHash (info_hash.rs:140-150, bytewise xor; bit-level facts come from Kani)
+pub uninterp spec fn ih_xor(a: InfoHash, b: InfoHash) -> InfoHash;
+impl vstd::std_specs::ops::BitXorSpecImpl<InfoHash> for InfoHash {
+    open spec fn obeys_bitxor_spec() -> bool { true }
+    open spec fn bitxor_req(self, rhs: InfoHash) -> bool { true }
+    open spec fn bitxor_spec(self, rhs: InfoHash) -> InfoHash { ih_xor(self, rhs) }
+}
+impl std::ops::BitXor for InfoHash {
+    type Output = InfoHash;
+    #[verifier::external_body]
+    fn bitxor(self, rhs: InfoHash) -> InfoHash { unimplemented!() }
+}
 //@begin const src/action/lookup.rs - ENDGAME_TIMEOUT
 pub exec const ENDGAME_TIMEOUT: Duration ensures dur_nanos(ENDGAME_TIMEOUT) == 1_500_000_000 { Duration::from_millis(1500) }
 //@end
@@ -124,6 +152,99 @@ pub open spec fn lookup_query(l: TableLookup, e: Ev) -> bool {
 }
 
 impl TableLookup {
+//@begin fn src/action/lookup.rs impl:TableLookup new rules=R-deasync props=C03,C19,C17
+    #[verifier::exec_allows_no_decreases_clause]
+    pub fn new(
+        target_id: InfoHash,
+        will_announce: bool,
+        tx: mpsc::UnboundedSender<SocketAddr>,
+        id_generator: MIDGenerator,
+        table: Arc<Mutex<RoutingTable>>,
+        socket: &Socket,
+        timer: &mut Timer<ScheduledTaskCheck>,
+        Tracked(tr): Tracked<&mut Trace>,
+    ) -> (r: TableLookup)
+        requires old(timer).wf()
+        ensures r.target_id == target_id, r.will_announce == will_announce, r.id_generator.action_id == id_generator.action_id, !r.in_endgame,
+            r.announce_tokens@.len() == 0, // @C03.new_search_knows_no_token
+            // creating a search is recorded as the (ghost) LookupStart event; what follows is its first round of queries
+            final(tr).ev.len() > old(tr).ev.len(), final(tr).ev[old(tr).ev.len() as int] == Ev::LookupStart(target_id, will_announce),
+            only_requests_and_yields(old(tr).ev.push(Ev::LookupStart(target_id, will_announce)), final(tr).ev), // @C03.first_round_only_queries
+            no_yield(old(tr).ev, final(tr).ev), // @C03.first_round_only_queries
+            no_new_refresh(*old(timer), *final(timer)),
+            // the first round: get_peers queries of this search with 8-byte ids of this search
+            forall|i: int| old(tr).ev.len() <= i < final(tr).ev.len() && #[trigger] final(tr).ev[i] is Send ==> lookup_query(r, final(tr).ev[i]), // @C19.lookup_queries_carry_8_byte_ids_of_the_search
+            forall|i: int| old(tr).ev.len() <= i < final(tr).ev.len() && #[trigger] final(tr).ev[i] is Send ==> blen(final(tr).ev[i]->Send_0) <= 1500, // @C17.lookup_queries_fit_1500_bytes
+    {
+        proof {
+            tr.ev = tr.ev.push(Ev::LookupStart(target_id, will_announce));
+        }
+        let ghost ev1 = tr.ev;
+        // Pick a buckets worth of nodes and put them into the all_sorted_nodes list
+        let mut all_sorted_nodes = Vec::with_capacity(bucket::MAX_BUCKET_SIZE);
+        let mut vx_it = table
+            .lock()
+            .unwrap()
+            .closest_nodes(target_id)
+            .filter(|n: &&Node| -> (b: bool) { n.status() == NodeStatus::Good })
+            .take(bucket::MAX_BUCKET_SIZE);
+        loop
+            invariant tr.ev == ev1, *timer == *old(timer),
+        {
+            let vx_nx = vx_it.next();
+            if vx_nx.is_none() {
+                break;
+            }
+            let node = vx_nx.unwrap();
+            insert_sorted_node(&mut all_sorted_nodes, target_id, *node.handle(), false);
+        }
+
+        // Call pick_initial_nodes with the all_sorted_nodes list as an iterator
+        let initial_pick_nodes = pick_initial_nodes(all_sorted_nodes.iter_mut());
+        let initial_pick_nodes_filtered =
+            initial_pick_nodes
+                .iter()
+                .filter(|p: &&(NodeHandle, bool)| -> (b: bool) { let (_, good) = p; *good })
+                .map(|p: &(NodeHandle, bool)| -> (q: (&NodeHandle, DistanceToBeat)) { let (node, _) = p; {
+                    let distance_to_beat = node.id ^ target_id;
+
+                    (node, distance_to_beat)
+                } });
+
+        let this_node_id = table.lock().unwrap().node_id();
+
+        // Construct the lookup table structure
+        let mut table_lookup = TableLookup {
+            table,
+            this_node_id,
+            ip_version: socket.ip_version(),
+            target_id,
+            in_endgame: false,
+            recv_values: false,
+            id_generator,
+            will_announce,
+            all_sorted_nodes,
+            announce_tokens: HashMap::new(),
+            requested_nodes: HashSet::new(),
+            active_lookups: HashMap::with_capacity(INITIAL_PICK_NUM),
+            tx,
+        };
+        let ghost l0 = table_lookup;
+
+        // Call start_request_round with the list of initial_nodes (return even if the search completed...for now :D)
+        table_lookup
+            .start_request_round(initial_pick_nodes_filtered, socket, timer, Tracked(tr))
+            ;
+        proof {
+            assert forall|i: int| old(tr).ev.len() <= i < tr.ev.len() && #[trigger] tr.ev[i] is Send implies lookup_query(table_lookup, tr.ev[i]) by {
+                assert(lookup_query(l0, tr.ev[i]));
+            }
+        }
+
+        table_lookup
+    }
+//@end
+
 //@begin fn src/action/lookup.rs impl:TableLookup start_request_round rules=R-deasync props=C03,C19,C17
     #[verifier::exec_allows_no_decreases_clause]
     pub fn start_request_round<'a, I>(
